@@ -311,25 +311,53 @@ func c27Gen(w *bufio.Writer, seed int64, tier string) {
 	}
 	pre := func() {
 		// state left at the destination by earlier activity: directories, files, symbolic links
-		// (also escaping and absolute ones), hard links inside the destination
+		// (also escaping and absolute ones), hard links inside the destination.  Nothing is created
+		// THROUGH an earlier symbolic link and no relative target climbs above the sandbox root
+		// (the model's root is the sandbox root).
 		if r.chance(60) {
 			fmt.Fprintln(w, "pre dir "+dest)
 		}
+		var links []string
+		through := func(p string) bool {
+			for _, l := range links {
+				if strings.HasPrefix(p, l+"/") {
+					return true
+				}
+			}
+			return false
+		}
+		ups := func(t string) int { return strings.Count(t, "..") }
 		for k := r.pick(0, 0, 1, 2, 4); k > 0; k-- {
 			p := dest + "/" + names[r.intn(len(names))]
+			if through(p) {
+				continue
+			}
+			depth := strings.Count(p, "/") // depth of the directory that holds the entry
 			switch r.intn(8) {
 			case 0, 1:
 				fmt.Fprintln(w, "pre dir "+p)
 			case 2, 3:
 				fmt.Fprintf(w, "pre file %s p%d\n", p, k)
 			case 4:
-				fmt.Fprintf(w, "pre sym %s %s\n", p, r.pickS("../../out", "/out", "..", "../..", "/out/secret", "../../out/secret", "/top", "a", "nonexistent", "/w/d"))
+				t := r.pickS("../../out", "/out", "..", "../..", "/out/secret", "../../out/secret", "/top", "a", "nonexistent", "/w/d")
+				if ups(t) <= depth {
+					fmt.Fprintf(w, "pre sym %s %s\n", p, t)
+					links = append(links, p)
+				}
 			case 5:
-				fmt.Fprintf(w, "pre sym %s %s\n", p, targets[r.intn(len(targets))])
+				t := targets[r.intn(len(targets))]
+				if ups(t) <= depth {
+					fmt.Fprintf(w, "pre sym %s %s\n", p, t)
+					links = append(links, p)
+				}
 			case 6:
-				fmt.Fprintf(w, "pre hard %s %s\n", p, dest+"/"+names[r.intn(len(names))])
+				old := dest + "/" + names[r.intn(len(names))]
+				if !through(old) {
+					fmt.Fprintf(w, "pre hard %s %s\n", p, old)
+				}
 			default:
 				fmt.Fprintf(w, "pre sym %s %s\n", p, p[strings.LastIndexByte(p, '/')+1:]) // self loop
+				links = append(links, p)
 			}
 		}
 	}
